@@ -18,7 +18,7 @@ RULE = (
     "Fault enumeration (E1/E2) on one function evaluation combined with / followed by one gradient evaluation: EVERY subset "
     "of the R + R*P cells (realization, unperturbed | perturbation k) fails, for (R,P) up to (3,3) [quick: up to (3,2)], x the "
     "column carrying the NaN (objective 0 / objective 1 / constraint 0) x every realization_min_success 0..R x every "
-    "perturbation_min_success 1..P x realization weights {1..R, with a zero} x filter {none, sort, cvar} x estimator map {mean, stddev on objective 1} x "
+    "perturbation_min_success 1..P x realization weights {1..R, with a zero} x filter {none, sort, cvar} x estimator map {mean, stddev on objective 1, stddev on objective 0} x "
     "per-realization / merged gradient estimation x combined / split evaluation. Oracle: failed flags formula; functions/gradients None iff successes < threshold and the "
     "same evaluation inside an optimizer step ends with TOO_FEW_REALIZATIONS; values equal the reference on the survivors, "
     "the REAL code on the reduced ensemble (differential, for functions and - when the survivors lost no perturbation - for gradients, merged included), and the least-squares fit over the surviving perturbations for per-realization gradients. "
@@ -36,7 +36,7 @@ BOUNDS = {
     "thorough": "(R,P) up to (3,3): all 2^12 subsets",
 }
 FILTERS = ["none", "sort", "cvar"]
-EMAPS = [(0, 0, 0), (0, 1, 0)]
+EMAPS = [(0, 0, 0), (0, 1, 0), (1, 0, 0)]
 
 
 def shape_v(P: int) -> int:
@@ -156,8 +156,9 @@ def judge(case: dict[str, Any], shared: dict[Any, Any] | None = None) -> Judgeme
             # split mode: a gradient-side stddev abort can legitimately occur later; only function-side judged here
             if not split:
                 # combined: the gradient part may abort (stddev with <2 positive weights after perturbation failures)
-                w_g = _weights_for(config, refc, fmap, 1, failed_g)
-                if emap[1] == 1 and (w_g is None or np.count_nonzero(w_g > 0) < 2):
+                f_std = emap.index(1) if 1 in emap else None
+                w_g = None if f_std is None else _weights_for(config, refc, fmap, f_std, failed_g)
+                if f_std is not None and (w_g is None or np.count_nonzero(w_g > 0) < 2):
                     j.trivial = True
                     j.outcome = "gradient-estimator-abort"
                     return j
@@ -332,8 +333,10 @@ def run_shard(shard: dict[str, Any]) -> core.ShardResult:
                     for flt in FILTERS:
                         if flt != "none" and R == 1:
                             continue
-                        for emap, merge in ((0, False), (1, False), (0, True)):
+                        for emap, merge in ((0, False), (1, False), (2, False), (0, True)):
                             for split in (False, True):
+                                if emap == 2 and tier == "quick" and (flt != "none" or nan_col == 2):
+                                    continue  # stddev on the FIRST objective (the column failure detection reads): unfiltered in quick
                                 if merge and tier == "quick" and (nan_col == 2 or flt == "cvar"):
                                     continue
                                 if tier == "quick" and R * (P + 1) >= 9 and (nan_col == 1 or (emap == 1 and flt == "cvar")):
